@@ -2,6 +2,7 @@ package gen
 
 import (
 	"time"
+	_ "time/tzdata"
 
 	"verif/harness/spec"
 )
@@ -49,12 +50,21 @@ func C10(seed uint64, run int) *spec.Spec {
 			t = time.Date(y, time.Month(r.Range(1, 12)), r.Range(1, 28), r.Intn(24), r.Intn(60), r.Intn(60), 0, time.UTC)
 		}
 		tick := []int64{0, 1_000_000, 400_000_000, 1_000_000_000}[r.Intn(4)]
-		return spec.Clock{Now: t.Format(time.RFC3339Nano), ZoneS: zone, TickNs: tick}
+		c := spec.Clock{Now: t.Format(time.RFC3339Nano), ZoneS: zone, TickNs: tick}
+		if r.Chance(0.12) {
+			c.Zone = r.PickS(NamedZones)
+		}
+		return c
 	}
 	s.Clock = mkClock()
 	cur := s.Clock
 	curYear := func() int {
 		t, _ := time.Parse(time.RFC3339Nano, cur.Now)
+		if cur.Zone != "" {
+			if loc, err := time.LoadLocation(cur.Zone); err == nil {
+				return t.In(loc).Year()
+			}
+		}
 		return t.Add(time.Duration(cur.ZoneS) * time.Second).Year()
 	}
 	n := r.Range(1, 6)
@@ -84,6 +94,10 @@ func C10(seed uint64, run int) *spec.Spec {
 			} else {
 				lk.Fault = "zone_change"
 				c.ZoneS = r.Range(-12, 14) * 3600
+				c.Zone = ""
+				if r.Chance(0.25) {
+					c.Zone = r.PickS(NamedZones)
+				}
 			}
 			cc := c
 			lk.Clock = &cc
@@ -243,5 +257,89 @@ func C10(seed uint64, run int) *spec.Spec {
 		}
 		s.Lookups = append(s.Lookups, lk)
 	}
+	if r.Chance(0.12) {
+		c10Concurrent(s, r, curYear())
+	}
 	return s
+}
+
+// c10Concurrent turns the run into one with several callers under the simulator's scheduler: their lookups overlap
+// in time, and one caller's clock or zone fault lands in the middle of another caller's lookup.
+func c10Concurrent(s *spec.Spec, r *Rng, lastYear int) {
+	nTasks := r.Range(2, 3)
+	t0, _ := time.Parse(time.RFC3339Nano, s.Clock.Now)
+	y0 := t0.Add(time.Duration(s.Clock.ZoneS) * time.Second).Year()
+	if s.Clock.Zone != "" {
+		if loc, err := time.LoadLocation(s.Clock.Zone); err == nil {
+			y0 = t0.In(loc).Year()
+		}
+	}
+	if r.Chance(0.55) && y0 >= 3 && y0 < 9980 {
+		// the same question from every caller while the year turns: the first caller starts in year Y, another caller
+		// moves the clock into Y+1 and then asks for a moment of Y+1 - its answer must reach to the end of Y+1
+		// whatever the first caller is doing at that time
+		y1 := y0 + 1
+		lk := spec.Lookup{Moment: [6]int{y1, r.Range(1, 12), r.Range(1, 28), r.Intn(24), r.Intn(60), r.Intn(60)}, Sect: r.Range(1, 2), API: 0, Why: "year_turns_between_callers"}
+		lk.Base = r.Pick([]int{1900, 1, 1582, y1 - 59, y0, 1984})
+		if lk.Base > y0 {
+			lk.Base = y0
+		}
+		if lk.Base < 1 {
+			lk.Base = 1
+		}
+		if lk.Base == 1900 && r.Chance(0.4) {
+			lk.API = r.Range(1, 2)
+			if lk.API == 2 {
+				lk.Sect = 2
+			}
+		}
+		s.Lookups = nil
+		jumper := r.Range(1, nTasks-1)
+		for t := 0; t < nTasks; t++ {
+			l := lk
+			l.Task = t
+			if t == jumper {
+				// mid-year, so that every zone agrees about the year
+				nt := time.Date(y1, time.Month(r.Range(2, 11)), r.Range(1, 28), r.Intn(24), r.Intn(60), r.Intn(60), 0, time.UTC)
+				c := s.Clock
+				c.Now = nt.Format(time.RFC3339Nano)
+				l.Clock, l.Fault = &c, "clock_jump"
+			}
+			s.Lookups = append(s.Lookups, l)
+			if t != jumper && r.Chance(0.4) {
+				// and once more after the others
+				l2 := lk
+				l2.Task = t
+				s.Lookups = append(s.Lookups, l2)
+			}
+		}
+		s.Config.Faults.ClockJump = true
+	} else {
+		if len(s.Lookups) == 1 {
+			s.Lookups = append(s.Lookups, s.Lookups[0])
+			s.Lookups[1].Clock, s.Lookups[1].Fault = nil, ""
+		}
+		for i := range s.Lookups {
+			s.Lookups[i].Task = r.Intn(nTasks)
+		}
+		s.Lookups[0].Task, s.Lookups[1].Task = 0, 1
+	}
+	c := &s.Config
+	switch r.Weighted([]int{10, 45, 45}) {
+	case 0:
+		c.Policy = "rr"
+	case 1:
+		c.Policy = "random"
+		c.SwitchP = []float64{0.0005, 0.005, 0.02, 0.1}[r.Intn(4)]
+	default:
+		c.Policy = "pct"
+		c.PCTDepth = r.Range(1, 3)
+		span := 64
+		for i, n := 0, r.Intn(14); i < n; i++ {
+			span *= 2
+		}
+		c.PCTSpan = span
+	}
+	s.Decisions = nil // decided by the scheduler's PRNG; a replay file carries the recorded decisions
+	_ = lastYear
 }
